@@ -36,6 +36,9 @@ CLAIMED = {
  "C08": ("deterministic simulation with adversarial peers inside a live session: seeded IQs (6 sender classes x 6 types x 49 payloads x id collisions with the client's own pending requests) against three extension sets, interleaved with deliveries, cuts and reconnects; reply counter per (sender, id)",
          "seeded search over inputs, configurations and interleavings with the client's own outstanding requests; a clean batch is evidence, not proof",
          "transport and server simulated; stream management off"),
+ "C13": ("deterministic simulation of three cooperating actors (producer, consumer, lifetime) on the task primitive: seeded orderings incl. re-entrant calls from inside continuations and deferred deletion through the simulated dispatcher; task reference model + instance counters under ASan",
+         "seeded search over operation orderings for void, copyable and move-only results; refinement against a small reference model; a clean batch is evidence, not proof; the space is small and not enumerated exhaustively",
+         "no I/O involved; ASan/UBSan keep lifetime errors visible"),
  "C09": ("deterministic simulation with fault injection: seeded histories of sends, acks (honest/adversarial), link losses and resumptions against an executable XEP-0198 reference model fed from the wire",
          "seeded search over histories and fault sequences with a real client and an independent scripted server; refinement against a small reference model after every step",
          "transport, TLS, clock and server are simulated; server-to-client delivery is element-wise"),
